@@ -40,10 +40,11 @@ structure MetaPart where
   dbrefs : List (String × DbRef × Bool)
   modifications : List ((Nat × List Char) × LexItem)
   bonds : List ((Nat × List Char) × LexItem)
-  sawSeqres : Bool
+  seqres : List (Char × List (Nat × Nat × List (List Char)))
+  seqresLines : List (Nat × List Char)
 
 def PState.metaPart (s : PState) : MetaPart :=
-  ⟨s.info, s.scale, s.origx, s.mtrix, s.dbrefs, s.modifications, s.bonds, s.sawSeqres⟩
+  ⟨s.info, s.scale, s.origx, s.mtrix, s.dbrefs, s.modifications, s.bonds, s.seqres, s.seqresLines⟩
 
 theorem stepItem_atomic_meta (o : ReadOpts) (s : PState) (ctx : Nat × List Char) (item : LexItem)
     (h : item.atomicOnly = true) : (stepItem o s ctx item).1.metaPart = s.metaPart := by
@@ -86,15 +87,13 @@ theorem foldl_atomic_meta (o : ReadOpts) (ho : o.onlyAtomicCoords = true) (l : L
 /-- **no metadata under only-atomic-coordinates** (PDB reader): whatever the text, the structure that comes
 back has no identifier, remarks, cell, space group, scale, origx, NCS operators, database references or bonds -/
 theorem C15_pdb_atomic_no_metadata (o : ReadOpts) (ho : o.onlyAtomicCoords = true) (lines : List (List Char))
-    (f : PdbFile) (errs : List PDiag) (h : readPdbCore o lines = some (f, errs)) :
+    (f : PdbFile) (errs : List PDiag) (h : readPdbCore o lines = (f, errs)) :
     f.info.identifier = none ∧ f.info.remarks = [] ∧ f.info.cell = none ∧ f.info.symmetry = none ∧
     f.info.scale = none ∧ f.info.origx = none ∧ f.info.mtrix = [] ∧ f.info.dbrefs = [] ∧ f.info.bonds = [] := by
   unfold readPdbCore at h
   have hm := foldl_atomic_meta o ho ((List.range lines.length).zip lines) ({} : PState)
   simp only at h
-  split at h
-  · cases h
-  · simp only [Option.some.injEq, Prod.mk.injEq] at h
+  · simp only [Prod.mk.injEq] at h
     obtain ⟨hf, _⟩ := h
     subst hf
     -- the metadata part of the final parser state is that of the empty state
@@ -103,7 +102,7 @@ theorem C15_pdb_atomic_no_metadata (o : ReadOpts) (ho : o.onlyAtomicCoords = tru
     have hflush : (flushModel st).metaPart = st.metaPart := by unfold flushModel; split <;> rfl
     have hall := hflush.trans hm
     simp only [PState.metaPart, MetaPart.mk.injEq] at hall
-    obtain ⟨h1, h2, h3, h4, h5, h6, h7, _⟩ := hall
-    simp [h1, h2, h3, h4, h5, h6, h7, rowsFull, rowsPartly, addBonds]
+    obtain ⟨h1, h2, h3, h4, h5, h6, h7, h8, _⟩ := hall
+    simp [h1, h2, h3, h4, h5, h6, h7, h8, rowsFull, rowsPartly, addBonds]
 
 end PdbModel
